@@ -6,6 +6,12 @@
   op    : fwd cls=<flags> addrs=<a0,a1,…> sched=<tok,tok,…>
           addr  t~host~port | t~host~0~assigned | u~path
           tok   l<k>[!] lt<k>[!] lu<k>[!]   Listen / ListenTCP / ListenUnix on address k ('!': peer denies)
+                lf<k> ls<k> lx<k>            Listen with network "tcp4" / "tcp6" / "udp" (unsupported: error, no request)
+                d<k>[!] dt<k>[!] dc<k> dx<k> Dial / DialTCP (peer confirms, '!': rejects with ConnectionFailed) / DialContext with a
+                                             cancelled context / Dial("udp"): events O<s>=t~host~port|u~path (the direct-tcpip /
+                                             direct-streamlocal open on the wire) and D<s>=ok|fail:<reason>|err
+                q<f>                         the peer sends a channel request (want-reply) on the accepted forward f: the connection
+                                             returned by Accept answers it with failure (DiscardRequests): Q<s>=fail
                 f<k> fp<k> fa<k> fm<k> fx<k> peer opens a forwarded channel for address k
                                              (p: origin port 0, a: origin address unparsable, m: truncated payload, x: unknown channel type)
                 a<s> c<s>[!]                 Accept / Close on the listener created at step s ('!': peer refuses the cancel request)
@@ -35,6 +41,14 @@ def parseTok (t : String) : Option Tok :=
     | _ => (cs, false)
   match cs with
   | ['x'] => if bang then none else some ⟨"x", 0, ""⟩
+  | 'l' :: 'x' :: r => if bang then none else (digitsNat? r).map (⟨"lx", ·, ""⟩)      -- Listen("udp", …): unsupported protocol
+  | 'l' :: 'f' :: r => (digitsNat? r).map (⟨"l", ·, if bang then "!" else ""⟩)       -- Listen("tcp4", …)
+  | 'l' :: 's' :: r => (digitsNat? r).map (⟨"l", ·, if bang then "!" else ""⟩)       -- Listen("tcp6", …)
+  | 'd' :: 'x' :: r => if bang then none else (digitsNat? r).map (⟨"d", ·, "x"⟩)      -- Dial("udp", …)
+  | 'd' :: 'c' :: r => if bang then none else (digitsNat? r).map (⟨"d", ·, "c"⟩)      -- DialContext with a cancelled context
+  | 'd' :: 't' :: r => (digitsNat? r).map (⟨"d", ·, if bang then "t!" else "t"⟩)      -- DialTCP
+  | 'd' :: r => (digitsNat? r).map (⟨"d", ·, if bang then "!" else ""⟩)               -- Dial / DialContext (live context)
+  | 'q' :: r => if bang then none else (digitsNat? r).map (⟨"q", ·, ""⟩)              -- peer: channel request (want reply) on accepted forward
   | 'l' :: 't' :: r => (digitsNat? r).map (⟨"l", ·, if bang then "!" else ""⟩)
   | 'l' :: 'u' :: r => (digitsNat? r).map (⟨"l", ·, if bang then "!" else ""⟩)
   | 'l' :: r => (digitsNat? r).map (⟨"l", ·, if bang then "!" else ""⟩)
@@ -62,6 +76,7 @@ structure Branch where
   closedRet : List Nat     -- listeners whose Close has returned
   late : List Nat          -- accept calls issued after their listener's Close had returned
   dup : Bool               -- two live entries shared a key at some point
+  conf : List Nat := []    -- forwards whose channel the application has accepted (confirmation on the wire)
 deriving DecidableEq
 
 def dedupB (bs : List Branch) : List Branch :=
@@ -123,8 +138,9 @@ def stepBranch (b : Branch) (i : Nat) (t : Tok) (a : Act) : Option (List Branch)
     | none => none
     | some qs => some (qs.map (fun q =>
         let closed := q.log.filterMap (fun e => match e with | .close _ lid _ => some lid | _ => none)
+        let confd := q.log.filterMap (fun e => match e with | .confirm f => some f | _ => none)
         { st := q, closedRet := b.closedRet ++ closed, late := late,
-          dup := b.dup || hasDupKeys q.entries }))
+          dup := b.dup || hasDupKeys q.entries, conf := b.conf ++ confd }))
 
 structure Verdict where
   mayHang : Bool := false
@@ -143,6 +159,31 @@ def walk (keys : List Key) : Nat → List Tok → List (List String) → List Br
     Except String (Verdict × Bool)
   | _, [], _, _, ok, v => .ok (v, !ok.isEmpty)
   | i, t :: ts, obs, all, ok, v =>
+    -- calls that do not touch the forward list: their result is a function of the connection being up
+    if t.kind == "lx" || t.kind == "d" || t.kind == "q" then
+      let alive := (ok.head?.map (·.st.alive)).getD true
+      let want? : Option (List String) :=
+        if t.kind == "lx" then some [s!"L{i}=err"]
+        else if t.kind == "q" then
+          if alive && ok.all (·.conf.contains t.arg) && !ok.isEmpty then some [s!"Q{i}=fail"] else none
+        else match keys[t.arg]? with
+          | none => none
+          | some k =>
+            let deny := t.flag == "!" || t.flag == "t!"
+            let tgt := match k.net with
+              | .tcp => s!"O{i}=t~{k.host}~{k.port}"
+              | .unix => s!"O{i}=u~{k.host}"
+            if t.flag == "x" || t.flag == "c" then some [s!"D{i}=err"]
+            else if k.net == .tcp && k.port > 65535 && !(t.flag == "t" || t.flag == "t!") then some [s!"D{i}=err"]
+            else if !alive then some [s!"D{i}=err"]
+            else some [tgt, if deny then s!"D{i}=fail:2" else s!"D{i}=ok"]
+      match want? with
+      | none => .error "bad-op:call"
+      | some want =>
+        if sortStrs (obs.headD []) != sortStrs want then
+          .error s!"reject:call step={i} want={",".intercalate want}"
+        else walk keys (i+1) ts obs.tail all ok v
+    else
     match actOf keys i t with
     | none => .error "bad-op"
     | some a =>
@@ -188,7 +229,7 @@ def handle (line : String) : String :=
         if tr == "hang" || tr == "panic" || tr == "crash" then s!"reject:{tr}" else
         let obs := parseObs tr
         if obs.length != toks.length then "reject:trace-length" else
-        let b0 : Branch := ⟨init, [], [], false⟩
+        let b0 : Branch := ⟨init, [], [], false, []⟩
         match walk keys 0 toks obs [b0] [b0] {} with
         | .error e => e
         | .ok (v, _) =>
